@@ -71,6 +71,7 @@ type fnEnc struct {
 	callOrd   map[string]int
 	localAllocs []string // refs of non-escaping allocations
 	lockAtEntry string
+	loopSels    map[string]int
 }
 
 type retInfo struct {
@@ -622,4 +623,15 @@ func wrapInt(t string, T types.Type) string {
 		return fmt.Sprintf("(mod %s %s)", t, pow2(bits).String())
 	}
 	return fmt.Sprintf("(- (mod (+ %s %s) %s) %s)", t, pow2(bits-1).String(), pow2(bits).String(), pow2(bits-1).String())
+}
+
+// lvOf returns the statically resolved address behind v: a recorded FieldAddr/IndexAddr, or a package-level variable.
+func (e *fnEnc) lvOf(v ssa.Value) (*LValue, bool) {
+	if lv, ok := e.lvs[v]; ok {
+		return lv, true
+	}
+	if g, ok := v.(*ssa.Global); ok {
+		return e.globalLV(g), true
+	}
+	return nil, false
 }
